@@ -283,6 +283,10 @@ class Bundle:
 
         if key.startswith("_") or not getattr(self, "_initialized", False):
             # Bootstrapping phase. Pass along to "regular" setattr.
+            if key.startswith("_") and isinstance(val, (Signal, BundleInstance)):
+                # An HDL object under a private name would silently not be part of the Bundle.
+                msg = f"Invalid Bundle attribute name `{key}` for {val}: names starting with `_` are private to {self}"
+                raise RuntimeError(msg)
             return super().__setattr__(key, val)
 
         # Special case(s)
